@@ -238,7 +238,7 @@ def tree_strategy(draw, depth=2, max_workers=8, batch=True, allow=('w', 'seq', '
                         node['bw'] = draw(st.sampled_from([0, 0.01, 0.05]))
             node['pre'] = draw(st.booleans()) if draw(st.integers(0, 2)) == 0 else False
             return node
-        k = draw(st.integers(2, 3)) if t != 'switch' else 2
+        k = draw(st.integers(2, 3)) if t != 'switch' else draw(st.sampled_from([1, 2, 2]))
         node = {'t': t, 'ch': [gen(d - 1) for _ in range(k)]}
         if t == 'ens':
             node['ff'] = draw(st.booleans())
